@@ -44,6 +44,10 @@ def gen_unit(rng):
     mode = rng.choice(MODES)
     g = eg.Gen(rng, ill_typed=0.08, maxdepth=3)
     inputs = [eg.gen_input(rng) for _ in range(rng.choice((1, 3, 6, 12)))]
+    if mode == "macro" and rng.random() < 0.06:
+        # hundreds of sparse records first (most expressions find nothing in them), then the ordinary ones: a macro is worth
+        # what the expression is worth in place, however often it came up empty before
+        inputs = [{"zz": i} if i % 50 else {} for i in range(rng.choice((260, 300, 520, 700)))] + inputs
     u = {"mode": mode, "input": "\n".join(jm.dumps(v) for v in inputs).encode()}
     if mode == "spelling":
         exprs = [force_alias_expr(rng, g) if rng.random() < 0.6 else g.gen(rng.choice(eg.KINDS), plain_scope()) for _ in range(4)]
